@@ -121,9 +121,9 @@ Print Assumptions C10_adhoc_route_priority.
 (* non-vacuity: three records 0,1,2 (value = id mod 2), one exact-match comparison *)
 Definition ex_cmp : list level :=
   [ {| lcond := 0; is_null := false; is_else := false; lm := 9 # 10; lu := 1 # 10; tf_col := Some 0%nat;
-       tf_w := 1; tf_min_u := 0; disable_exact_detect := false; exact_col := Some 0%nat |};
+       tf_w := 1; tf_min_u := 0; disable_exact_detect := false; exact_cols := [0%nat] |};
     {| lcond := 1; is_null := false; is_else := true; lm := 1 # 10; lu := 9 # 10; tf_col := None;
-       tf_w := 1; tf_min_u := 0; disable_exact_detect := false; exact_col := None |} ].
+       tf_w := 1; tf_min_u := 0; disable_exact_detect := false; exact_cols := [] |} ].
 Definition ex_outc (l r : nat) : list (nat -> tv) := [fun _ => of_bool (Nat.eqb (Nat.modulo l 2) (Nat.modulo r 2))].
 Definition ex_value (k : nat) (r : nat) : option nat := Some (Nat.modulo r 2).
 Definition ex_pow (b e : Q) : Q := b.
